@@ -573,6 +573,15 @@ class Tr:
         else:
             raise Untranslatable("for target")
         targets = [n for n, _ in tnames]
+        # a `_ttinfo()` made in the body must have every slot assigned, unconditionally, in that body (the heap model has no None slots)
+        for st in s.body:
+            if isinstance(st, ast.Assign) and isinstance(st.value, ast.Call) and isinstance(st.value.func, ast.Name) \
+                    and st.value.func.id == "_ttinfo" and len(st.targets) == 1 and isinstance(st.targets[0], ast.Name):
+                obj = st.targets[0].id
+                setattrs = {t.attr for b in s.body if isinstance(b, ast.Assign) for t in b.targets
+                            if isinstance(t, ast.Attribute) and isinstance(t.value, ast.Name) and t.value.id == obj}
+                if not set(TT_FIELDS) <= setattrs:
+                    raise Untranslatable("_ttinfo() with unassigned slots %s" % sorted(set(TT_FIELDS) - setattrs))
         carried = [v for v in self.assigned(list(s.body) + list(s.orelse)) if v not in targets and v in self.env]
         if not carried: raise Untranslatable("loop without effect")
         has_break = has(s.body, ast.Break)
